@@ -9,7 +9,7 @@ EXTENDS Integers, Sequences, FiniteSets, TLC
 
 CONSTANTS MaxBatch
 
-Corruptions == {"none", "digest", "key", "sigbit"}
+Corruptions == {"none", "digest", "key", "sigbit", "keybit"}   \* keybit: one bit of the key flipped (often no longer a curve point)
 \* an abstract member: made for (key k, digest d); `c` says how it was corrupted afterwards
 Member(i, c) == [i |-> i, c |-> c]
 MemberOK(m) == m.c = "none"
